@@ -184,7 +184,31 @@ class Repo(object):
                 except SyntaxError as ex:
                     raise AnalysisError('cannot parse %s: %s' % (rel, ex))
                 self.modules[modname] = m
-                self._index(m)
+        # helpers that did not exist on the pinned tree are inlined back where that is exact (sa/normalise.py)
+        from .normalise import normalise
+        nz = normalise({name: m.tree for name, m in self.modules.items()})
+        self.normalised = {'inlined': sorted(set('%s -> %s (%s)' % x for x in nz.inlined)), 'removed': sorted(getattr(nz, 'removed', []))}
+        if nz.inlined:
+            # re-emit the changed modules so that line numbers are monotone again (rules order constructs by position);
+            # reports are mapped back to the lines of the real file through report.LINE_MAPS
+            from . import report
+            for m in self.modules.values():
+                before = ast.dump(ast.parse(m.src))
+                if ast.dump(m.tree) == before:
+                    continue
+                t2 = ast.parse(ast.unparse(m.tree))
+                lm = {}
+                for a, b in zip(ast.walk(m.tree), ast.walk(t2)):
+                    if type(a) is not type(b):
+                        lm = None
+                        break
+                    if hasattr(a, 'lineno') and hasattr(b, 'lineno'):
+                        lm.setdefault(b.lineno, a.lineno)
+                m.tree = t2
+                if lm:
+                    report.LINE_MAPS[m.relpath] = lm
+        for m in self.modules.values():
+            self._index(m)
         for c in self.all_classes():
             c.repo = self
 
@@ -286,7 +310,8 @@ class Repo(object):
 
     def stats(self):
         return {'modules': len(self.modules), 'classes': sum(len(v) for v in self.classes.values()),
-                'functions': len(self.funcs_by_node), 'digest': self.digest()}
+                'functions': len(self.funcs_by_node), 'digest': self.digest(),
+                'helpers_inlined_by_normalisation': self.normalised['inlined']}
 
 
 def norm(node):
